@@ -41,3 +41,15 @@ DIAG_SUBFUNCTIONS = [0, 1, 2, 3, 4, 10, 11, 12, 13, 14, 15, 16, 17, 18, 20, 21]
 MEI_TYPE_READ_DEVICE_ID = 14           # [APP] §6.21
 EXCEPTION_FLAG = 0x80                  # [APP] §4.1/§7: exception function code = fc + 0x80
 MAX_PDU = 253                          # [APP] §4.1
+
+# Integer PDU fields for which the specification excludes the value 0 ([APP] §6: quantities are >= 1, the MEI
+# Read Device ID code is 1..4).  Every other 8/16-bit field (addresses, values, AND/OR masks, sub-function data,
+# object ids, reference numbers, ...) may legitimately be 0.  Used by C01 R6 (constructors keep a 0 argument).
+ZERO_EXCLUDED_FIELDS = {
+    'read_code': 'MEI Read Device ID code is 0x01..0x04',
+    'count': 'quantities are >= 1',
+    'quantity': 'quantities are >= 1',
+    'read_count': 'quantities are >= 1',
+    'write_count': 'quantities are >= 1',
+    'byte_count': 'derived from a quantity >= 1',
+}
